@@ -205,8 +205,11 @@ def same_snapshot(a, b, dim_order=True):
             return 'variable %s dtype changed %s -> %s' % (va[0], va[2], vb[2])
         if va[4].shape != vb[4].shape or not np.array_equal(va[4], vb[4]):
             return 'variable %s mask changed' % va[0]
-        da = np.where(va[4], 0, va[3])
-        db = np.where(vb[4], 0, vb[3])
+        if np.asarray(va[3]).dtype.kind in 'SUO':
+            da, db = np.asarray(va[3]), np.asarray(vb[3])
+        else:
+            da = np.where(va[4], 0, va[3])
+            db = np.where(vb[4], 0, vb[3])
         if not np.array_equal(da, db, equal_nan=True) if da.dtype.kind == 'f' else not np.array_equal(da, db):
             return 'variable %s data changed' % va[0]
         if [k for k, _ in va[5]] != [k for k, _ in vb[5]]:
